@@ -309,7 +309,8 @@ def _shapeops(ctx, p, rng):
         data = _vals(rng, (D, P) + shape, vk)
         x = UTPM(data.copy())
         for k in (0, 1, -1):
-            for ent, f in (('global', (lambda k: lambda: algopy.diag(x, k) if k else algopy.diag(x))(k)), ('class', (lambda k: lambda: UTPM.diag(x, k))(k))):
+            for ent, f in (('global', (lambda k: lambda: algopy.diag(x, k) if k else algopy.diag(x))(k)), ('class', (lambda k: lambda: UTPM.diag(x, k))(k)),
+                           ('global-keyword', (lambda k: lambda: algopy.diag(x, k=k))(k)), ('class-keyword', (lambda k: lambda: UTPM.diag(x, k=k))(k))):
                 ok, y = _try(ctx, 'diag', f)
                 if not ok:
                     continue
@@ -320,13 +321,15 @@ def _shapeops(ctx, p, rng):
                 ctx.ok('diag', ('diag', shape, k, ent, D, P, vk))
             if len(shape) == 2:
                 for nm in ('triu', 'tril'):
-                    ok, y = _try(ctx, nm, (lambda nm, k: lambda: getattr(algopy, nm)(x, k))(nm, k))
+                  for ent, f in (('positional', (lambda nm, k: lambda: getattr(algopy, nm)(x, k))(nm, k)), ('keyword', (lambda nm, k: lambda: getattr(algopy, nm)(x, k=k))(nm, k)),
+                                 ('class-keyword', (lambda nm, k: lambda: getattr(UTPM, nm)(x, k=k))(nm, k))):
+                    ok, y = _try(ctx, nm, f)
                     if not ok:
                         continue
                     good, why = _slicewise(y, data, lambda s: getattr(np, nm)(s, k))
                     if not good:
-                        ctx.violation('%s:value' % nm, {'shape': shape, 'k': k, 'why': why}); continue
-                    ctx.ok(nm, (nm, shape, k, D, P, vk))
+                        ctx.violation('%s:value' % nm, {'shape': shape, 'k': k, 'argument-form': ent, 'why': why}); continue
+                    ctx.ok(nm, (nm, shape, k, ent, D, P, vk))
     # symvec / vecsym
     def symvec_ref(S, uplo):
         iu = np.triu_indices(S.shape[0])
